@@ -21,8 +21,12 @@ RULES = {
     "set_base_dir asks the tensor traversal for attributes too; the traversal reaches the tensor attributes of nested "
     "nodes (recursive node iterator, or a self-recursion that forwards every flag) and the initializers of GRAPH and "
     "GRAPHS subgraphs - a tensor that is not reached keeps base_dir '' and with it no containment check",
+    "R5": "what is mapped belongs to the current path: a method of ExternalTensor (other than the constructor) that stores a field "
+    "the `path` property is computed from (base directory, location) also resets the data fields filled by the checked loader "
+    "(`raw`, `_array`) - otherwise numpy()/tobytes() keep returning the bytes mapped from the old location, which were never "
+    "checked against the new base directory",
 }
-FLOORS = {"R1": 6, "R2": 6, "R3": 1, "R4": 5}
+FLOORS = {"R1": 6, "R2": 6, "R3": 1, "R4": 5, "R5": 1}
 EXPLANATION = (
     "Dominator queries on ExternalTensor's methods for every file-system read primitive, a who-may-fill check "
     "on the mmap/array fields, a small abstract interpretation of _check_path_containment over path-string "
@@ -501,7 +505,34 @@ def rule_r4(ctx):
                       how="branch reads <subgraph>.initializers or recurses", construct=f"{kind} initializers not reached")
 
 
+def rule_r5(ctx):
+    et = ctx.repo.cls(ET)
+    pg = et.props.get("path", {}).get("get")
+    ctx.require(pg is not None, "ExternalTensor.path property not found")
+    inputs = {x.attr for x in own_nodes(pg.node) if isinstance(x, ast.Attribute) and isinstance(x.value, ast.Name) and x.value.id == pg.params[0]}
+    ctx.require(bool(inputs), "ExternalTensor.path reads no field")
+    funcs = list(et.methods.values()) + [p[k] for p in et.props.values() for k in p]
+    n = 0
+    for f in funcs:
+        if f.name == "__init__":
+            continue
+        for w in field_writes(f):
+            if w.field in inputs and isinstance(w.recv, ast.Name) and w.recv.id == f.params[0] and w.kind == "store":
+                n += 1
+                resets = {x.field for x in field_writes(f) if x.field in ("raw", "_array") and isinstance(x.recv, ast.Name) and x.recv.id == f.params[0]
+                          and isinstance(getattr(x.stmt, "value", None), ast.Constant) and x.stmt.value.value is None}
+                released = any(isinstance(c.func, ast.Attribute) and c.func.attr == "release" and norm(c.func.value) == f.params[0] for c in calls_in(f))
+                ok = released or resets >= {"raw", "_array"}
+                ctx.check("R5", f"{f.local}: storing {w.field} drops the mapped data", ok, f, w.stmt,
+                          f"`{norm(w.stmt)}` changes what `path` denotes but keeps `raw` / `_array`: after a first read, numpy()/tobytes() go on returning "
+                          "the bytes of the old location without a containment check against the new base directory (tofile() re-checks and disagrees)",
+                          how="stores of the path's input fields outside the constructor are accompanied by resets of raw and _array (or release())",
+                          construct=f"{w.field} stored without dropping the mapping")
+    ctx.require(n >= 1, "no method of ExternalTensor stores an input of its path")
+
+
 def run(ctx):
+    rule_r5(ctx)
     rule_r1(ctx)
     rule_r2(ctx)
     rule_r3(ctx)
